@@ -65,6 +65,9 @@ def cases(rng, tier):
             c["drop"] = rng.random() < 0.5
         elif kind in ("average", "roundtrip"):
             c["x"] = [str(v) for v in rng.increasing(m, jitter=rng.random() < 0.3)]
+            if m >= 3 and rng.random() < 0.2:
+                # one sample many orders of magnitude above the others: every block mean is a local quantity
+                c["a"][rng.randrange(0, max(1, m // 2))] = str(rng.choice([10 ** 22, -25 * 10 ** 20, 3 * 10 ** 18]))
             if kind == "roundtrip":
                 c["n"] = rng.randint(2, 16)
         yield c
